@@ -6,7 +6,8 @@ PROP = 'C02'
 KERNELS = ['align', 'refract', 'reflect', 'rotate_x', 'rotate_y', 'rotate_z', 'translate', 'propagate',
            'std_sag', 'std_distance', 'std_normal', 'plane_distance', 'nr_sphere', 'ea_sag', 'ea_normal',
            'pg_sag', 'pg_normal', 'cheb_T', 'cheb_dT', 'cheb_validate', 'cheb_sag', 'cheb_normal',
-           'radial_clip', 'rr_clip', 'coat_transmit', 'coat_reflect']
+           'radial_clip', 'rr_clip', 'coat_transmit', 'coat_reflect',
+           'plumb_trace_real', 'plumb_interact', 'plumb_surface_trace', 'plumb_localize', 'plumb_globalize', 'plumb_coat_interact', 'plumb_group_trace', 'plumb_geom_localize', 'plumb_geom_globalize']
 THEOREMS = ['C02_refract_unit', 'C02_refract_snell', 'C02_refract_halfspace', 'C02_reflect_unit',
             'C02_reflect_law', 'C02_rotate_x_orthogonal', 'C02_rotate_y_orthogonal',
             'C02_rotate_z_orthogonal', 'C02_rotate_x_inverse', 'C02_rotate_y_inverse',
@@ -18,7 +19,8 @@ THEOREMS = ['C02_refract_unit', 'C02_refract_snell', 'C02_refract_halfspace', 'C
             'C02_ea_sag_is_conic_plus_poly', 'C02_ea_sag_dx', 'C02_ea_normal_is_gradient',
             'C02_refract_tir_nonfinite', 'C02_refract_lift', 'C02_reflect_lift',
             'C02_globalize_localize', 'C02_localize_globalize', 'C02_recorded_point_in_surface_frame',
-            'C02_conic_distance_sound_sheet', 'C02_sheet_is_sag_sheet', 'C02_conic_distance_nonneg']
+            'C02_conic_distance_sound_sheet', 'C02_sheet_is_sag_sheet', 'C02_conic_distance_nonneg',
+            'C02_trace_surface_is_regenerated_plumbing', 'C02_trace_is_regenerated_plumbing', 'C02_frame_change_is_regenerated_plumbing', 'C02_repo_lists_def']
 TRUSTED_BASE = BASE_TRUSTED + [
     'modelled, not verified: material.n(w) values are inputs of the trace model (C18 covers them)',
 ]
